@@ -304,8 +304,9 @@ def rule_signature_structure(ctx, cfg, prog):
     ctx.require(len(loops) == 1, 'sign_precomputed: fill loop not found')
     h, lp_ = loops[0]
     kid = None
+    lb = pr.local_binds(sp)
     for x in walk(lp_['body']):
-        if x.get('k') == 'index' and pr.norm_obj(pr.canon(x['base'])).endswith('attrs.attrs'):
+        if x.get('k') == 'index' and pr.norm_obj(pr.canon(x['base'], lb)).endswith('attrs.attrs'):
             kid = strip(x['idx']).get('id')
     ok = kid is not None
     if ok:
@@ -313,9 +314,9 @@ def rule_signature_structure(ctx, cfg, prog):
             if p[-1][0] != h:
                 continue
             matched = any(g.nodes[nid].kind == 'cond' and lab is True and strip(g.nodes[nid].ast).get('op') == '==' and
-                          '.idx' in pr.canon(strip(g.nodes[nid].ast)['lhs']) and '.idx' in pr.canon(strip(g.nodes[nid].ast)['rhs']) for (nid, lab) in p)
+                          '.idx' in pr.canon(strip(g.nodes[nid].ast)['lhs'], lb) and '.idx' in pr.canon(strip(g.nodes[nid].ast)['rhs'], lb) for (nid, lab) in p)
             inc = sum(incs_in(g.nodes[nid].ast, kid) for (nid, lab) in p if g.nodes[nid].kind == 'stmt' and g.nodes[nid].ast is not None)
-            contributes = any(c['name'] == 'multiply' and any('.hexp' in pr.canon(a) for a in c['args']) for (nid, lab) in p
+            contributes = any(c['name'] == 'multiply' and any('.hexp' in pr.canon(a, lb) for a in c['args']) for (nid, lab) in p
                               if g.nodes[nid].kind == 'stmt' and g.nodes[nid].ast is not None for c in pr.calls(g.nodes[nid].ast))
             if matched and not (inc >= 1 and contributes):
                 ok = False
